@@ -17,7 +17,7 @@ func init() {
 
 	register(&Rule{ID: "C18.R1", Prop: "C18", Floor: 1, Doc: "per-peer slot: every path from the semaphore send reaches a receive (direct or deferred first in the handler goroutine)", Run: c18r1})
 	register(&Rule{ID: "C18.R2", Prop: "C18", Floor: 1, Doc: "subnet slot: every path from a successful acquire reaches the release", Run: c18r2})
-	register(&Rule{ID: "C18.R3", Prop: "C18", Floor: 10, Doc: "every ThreadGroup registration is paired with its done on all exits", Run: c18r3})
+	register(&Rule{ID: "C18.R3", Prop: "C18", Floor: 4, Doc: "every ThreadGroup registration is paired with its done on all exits", Run: c18r3})
 	register(&Rule{ID: "C18.R4", Prop: "C18", Floor: 4, Doc: "ThreadGroup internals: Add/close under the mutex on the not-closed branch, Wait outside it", Run: c18r4})
 	register(&Rule{ID: "C18.R5", Prop: "C18", Floor: 1, Doc: "per-peer acquisition blocks (select without default)", Run: c18r5})
 	register(&Rule{ID: "C18.R6", Prop: "C18", Floor: 1, Doc: "peer insertion and inbound-cap comparison share one critical section", Run: c18r6})
